@@ -50,8 +50,25 @@ func (c *compiler) compileChange(achange *parse.Change) *Change {
 	matcher := mc.compileFile(achange.Patch.Minus)
 	replacer := rc.compileFile(achange.Patch.Plus)
 
-	ldots := mc.dots
-	rdots := rc.dots
+	// The implicit "..." before and after a list of statements stand at the
+	// same positions on both sides: associate them with each other and keep
+	// them out of the search below, which is for the "..." written in the
+	// patch. Otherwise a "..." on a "+" line above its "-" line is associated
+	// with the implicit "..." in front of the statements.
+	implicit := map[token.Pos]bool{achange.Patch.Pos(): true, achange.Patch.End(): true}
+	var ldots, rdots []token.Pos
+	for _, l := range mc.dots {
+		if !implicit[l] {
+			ldots = append(ldots, l)
+		}
+	}
+	for _, r := range rc.dots {
+		if implicit[r] {
+			rc.dotAssoc[r] = r
+		} else {
+			rdots = append(rdots, r)
+		}
+	}
 	connectDots(c.fset, ldots, rdots, rc.dotAssoc)
 
 	return &Change{
